@@ -76,4 +76,53 @@ theorem ip_fp_cancel (x : Nat) (hx : x < 2 ^ 64) : Spec.permF Spec.IP 64 (Spec.p
 
 theorem ip_zero : Spec.permF Spec.IP 64 0 = 0 := by decide +kernel
 
+/-! ### how `dEncrypt` consumes the schedule words -/
+
+/-- `(t >> 4) | (t << 28)` of `dEncrypt`. -/
+def rotr4E (w : LE) : LE := LE.or (LE.shr w 4) (LE.shl w 28)
+
+/-- the S-box index `dEncrypt` extracts for box `b` (0-based) from the key-only part of `u` (even boxes, word `kw0`)
+resp. of the rotated `t` (odd boxes, word `kw1`). -/
+def keyIdxE (b : Nat) : LE :=
+  if b % 2 = 0 then LE.and (LE.shr (kw0E LE.inp) (8 * (b / 2))) 0x3f
+  else LE.and (LE.shr (rotr4E (kw1E LE.inp)) (8 * (b / 2))) 0x3f
+
+def keyIdx (K b : Nat) : Nat := eval K (keyIdxE b)
+
+theorem keyIdx_ok : (List.range 8).all (fun b => ok (2 ^ 48 - 1) (keyIdxE b) && ok (2 ^ 48 - 1) (chunkE LE.inp b) &&
+    (List.range 48).all (fun i => eval (2 ^ i) (keyIdxE b) == eval (2 ^ i) (chunkE LE.inp b))) = true := by decide +kernel
+
+/-- the six key bits that reach S-box `b+1` in `dEncrypt` are block `B_{b+1}` of the round key (bits 6b+1 … 6b+6),
+first bit least significant — for every 48-bit round key. -/
+theorem keyIdx_eq_block (K b : Nat) (hK : K < 2 ^ 48) (hb : b < 8) :
+    keyIdx K b = Spec.revBits 6 ((K >>> (6 * (7 - b))) &&& 63) := by
+  have h := keyIdx_ok
+  rw [List.all_eq_true] at h
+  have := h b (List.mem_range.mpr hb)
+  simp only [Bool.and_eq_true] at this
+  exact le_ext 48 _ _ this.1.1 this.1.2 this.2 K hK
+
+/-- the S-box index `dEncrypt` extracts for box `b` from the data word alone (no key, no salt): from `R` itself for
+even boxes, from `R` rotated right by 4 for odd boxes, `R` being held as `rho` of the FIPS half. -/
+def dataIdxE (b : Nat) : LE :=
+  if b % 2 = 0 then LE.and (LE.shr (rhoE LE.inp) (8 * (b / 2))) 0x3f
+  else LE.and (LE.shr (rotr4E (rhoE LE.inp)) (8 * (b / 2))) 0x3f
+
+def dataIdx (R b : Nat) : Nat := eval R (dataIdxE b)
+
+theorem dataIdx_ok : (List.range 8).all (fun b => ok (2 ^ 32 - 1) (dataIdxE b) &&
+    ok (2 ^ 32 - 1) (chunkE (LE.perm Spec.E 32 LE.inp) b) &&
+    (List.range 32).all (fun i => eval (2 ^ i) (dataIdxE b) == eval (2 ^ i) (chunkE (LE.perm Spec.E 32 LE.inp) b))) = true := by
+  decide +kernel
+
+/-- the six data bits that reach S-box `b+1` are block `b+1` of the textbook expansion `E(R)` — the rotation by one
+and by four of the implementation is exactly the E bit-selection table, for every 32-bit half. -/
+theorem dataIdx_eq_Eblock (R b : Nat) (hR : R < 2 ^ 32) (hb : b < 8) :
+    dataIdx R b = Spec.revBits 6 ((Spec.permF Spec.E 32 R >>> (6 * (7 - b))) &&& 63) := by
+  have h := dataIdx_ok
+  rw [List.all_eq_true] at h
+  have := h b (List.mem_range.mpr hb)
+  simp only [Bool.and_eq_true] at this
+  exact le_ext 32 _ _ this.1.1 this.1.2 this.2 R hR
+
 end PttVerif.C02.Lin
